@@ -526,7 +526,7 @@ func c19Siblings(c *Ctx, ms map[string]*fsmx.Machine) {
 
 func c19Listing(c *Ctx) {
 	r := c.R
-	r.Rule("C19/R5", "the round handed out for a message is restored from the stored dump at that moment (or freshly created), never an instance kept from an earlier call", 2)
+	r.Rule("C19/R5", "the round handed out for a message is restored from the stored dump at that moment (or freshly created), never an instance kept from an earlier call; the all-rounds blob is rewritten under one fixed lock", 3)
 	for _, name := range []string{"GetFSMInstance", "loadFSM"} {
 		if fn := c.Fn("C19/R5", "client/services/fsmservice", "FSM", name); fn != nil {
 			why := c19FreshInstance(c, fn, 0)
@@ -534,6 +534,8 @@ func c19Listing(c *Ctx) {
 				why+": an instance that outlives the call is changed in place by Do; if that change is not saved (an error after Do, before SaveFSM) the service keeps answering from a round that a restored node does not have")
 		}
 	}
+	// ... and what is stored for a round is what was last saved for it: the blob of all rounds is rewritten under one lock
+	c14RMWAs(c, c14Roots(c), "C19/R5", "getStateKey()")
 	r.Rule("C19/R4", "listing restores every stored round through FromDump and propagates an error", 1)
 	fn := c.Fn("C19/R4", "client/services/fsmservice", "FSM", "GetAllFSM")
 	if fn == nil {
